@@ -1,4 +1,6 @@
 From Erbium Require Import Lib.Base Model.DhcpCodec Proofs.Bits.
+From Coq Require Import ZifyN ZifyBool ZifyNat.
+Ltac Zify.zify_post_hook ::= Z.div_mod_to_equations.
 
 Lemma broadcast_flag_is_bit15 (f : N) : broadcast_flag f = N.testbit f 15.
 Proof.
@@ -9,3 +11,192 @@ Qed.
 Lemma reply_dest_spec (f y : N) :
   reply_dest f y = if N.testbit f 15 then 4294967295 else y.
 Proof. unfold reply_dest. rewrite broadcast_flag_is_bit15. reflexivity. Qed.
+
+(* ---- decode (encode m) = m -------------------------------------------- *)
+
+Lemma lenN_app {A} (a b : list A) : lenN (a ++ b) = lenN a + lenN b.
+Proof. unfold lenN. rewrite app_length. lia. Qed.
+
+Lemma takeN_app_exact {A} (x r : list A) n : lenN x = n -> takeN n (x ++ r) = x.
+Proof.
+  intros <-. unfold takeN, lenN. rewrite Nat2N.id.
+  rewrite firstn_app, Nat.sub_diag, firstn_all. cbn [firstn]. apply app_nil_r.
+Qed.
+Lemma dropN_app_exact {A} (x r : list A) n : lenN x = n -> dropN n (x ++ r) = r.
+Proof.
+  intros <-. unfold dropN, lenN. rewrite Nat2N.id.
+  rewrite skipn_app, Nat.sub_diag, skipn_all. reflexivity.
+Qed.
+
+Lemma get_bytes_app x r n : lenN x = n -> get_bytes n (x ++ r) = Ok (x, r).
+Proof.
+  intro H. unfold get_bytes. rewrite lenN_app.
+  destruct (n <=? lenN x + lenN r) eqn:E; [|lia].
+  rewrite (takeN_app_exact x r n H), (dropN_app_exact x r n H). reflexivity.
+Qed.
+
+Lemma be32_decode v : v < 4294967296 -> be_decode (be32 v) = v.
+Proof. intro H. unfold be_decode, be32. cbn [fold_left]. lia. Qed.
+Lemma be16_decode' v : v < 65536 -> be_decode (be16 v) = v.
+Proof. intro H. unfold be_decode, be16. cbn [fold_left]. lia. Qed.
+
+Lemma get_be32_app v r : v < 4294967296 -> get_be 4 (be32 v ++ r) = Ok (v, r).
+Proof. intro H. unfold get_be. rewrite get_bytes_app by reflexivity. cbn [obind]. now rewrite be32_decode. Qed.
+Lemma get_be16_app v r : v < 65536 -> get_be 2 (be16 v ++ r) = Ok (v, r).
+Proof. intro H. unfold get_be. rewrite get_bytes_app by reflexivity. cbn [obind]. now rewrite be16_decode'. Qed.
+
+Lemma lenN_repeatN {A} (a : A) n : lenN (repeatN a n) = n.
+Proof. unfold lenN, repeatN. rewrite repeat_length. lia. Qed.
+
+Lemma fixed_short l out : lenN out <= l -> fixed l out = out ++ repeatN 0 (l - lenN out).
+Proof.
+  intro H. unfold fixed. f_equal. unfold takeN. apply firstn_all2. unfold lenN in H. lia.
+Qed.
+Lemma lenN_fixed l out : lenN out <= l -> lenN (fixed l out) = l.
+Proof. intro H. rewrite fixed_short by exact H. rewrite lenN_app, lenN_repeatN. lia. Qed.
+
+Lemma null_terminated_zeros k : null_terminated (repeat 0 k) = [].
+Proof. destruct k; reflexivity. Qed.
+Lemma null_terminated_pad v k : no_nul v = true -> null_terminated (v ++ repeat 0 k) = v.
+Proof.
+  induction v as [|b v IH]; cbn [app no_nul forallb].
+  - intros _. apply null_terminated_zeros.
+  - intro H. apply andb_true_iff in H. destruct H as [Hb Hv].
+    cbn [null_terminated]. destruct (b =? 0) eqn:E; [discriminate|]. f_equal. apply IH. exact Hv.
+Qed.
+
+(* ---- options ---------------------------------------------------------- *)
+Lemma opt_extend_twice acc c v1 v2 :
+  opt_extend (opt_extend acc c v1) c v2 = opt_extend acc c (v1 ++ v2).
+Proof.
+  induction acc as [|[c' w] acc IH]; cbn [opt_extend].
+  - rewrite N.eqb_refl. reflexivity.
+  - destruct (c' =? c) eqn:E; cbn [opt_extend]; rewrite E.
+    + now rewrite app_assoc.
+    + now rewrite IH.
+Qed.
+
+Lemma parse_options_step f code r acc :
+  code <> 0 -> code <> 255 ->
+  parse_options (S f) (code :: r) acc =
+  (do (len, r1) <- get_u8 r ; do (v, r2) <- get_bytes len r1 ; parse_options f r2 (opt_extend acc code v)).
+Proof.
+  intros H0 H255. cbn [parse_options].
+  destruct (code =? 0) eqn:E0; [lia|]. destruct (code =? 255) eqn:E1; [lia|]. reflexivity.
+Qed.
+
+(* parsing the chunks of one option *)
+Lemma lenN_takeN_le {A} (l : list A) n : n <= lenN l -> lenN (takeN n l) = n.
+Proof. unfold lenN, takeN. intro H. rewrite firstn_length. lia. Qed.
+Lemma length_dropN {A} (l : list A) n : length (dropN n l) = (length l - N.to_nat n)%nat.
+Proof. unfold dropN. apply skipn_length. Qed.
+Lemma take_drop {A} (l : list A) n : takeN n l ++ dropN n l = l.
+Proof. apply firstn_skipn. Qed.
+
+Lemma parse_chunks g code : code <> 0 -> code <> 255 ->
+  forall v rest acc fuel,
+  (length v < g)%nat ->
+  (length (enc_chunks g code v ++ rest) < fuel)%nat ->
+  exists fuel', (length rest < fuel')%nat /\
+    parse_options fuel (enc_chunks g code v ++ rest) acc = parse_options fuel' rest (opt_extend acc code v).
+Proof.
+  intros H0 H255. induction g as [|f IH]; intros v rest acc fuel Hg Hfuel; [lia|].
+  cbn [enc_chunks] in *. destruct (lenN v <=? 255) eqn:Hl.
+  - destruct fuel as [|fuel0]; [lia|]. cbn [app] in *.
+    rewrite parse_options_step by assumption.
+    cbn [get_u8 obind]. rewrite get_bytes_app by reflexivity. cbn [obind].
+    exists fuel0. split; [|reflexivity]. cbn [length] in Hfuel. rewrite app_length in Hfuel. lia.
+  - destruct fuel as [|fuel0]; [lia|]. cbn [app] in *.
+    rewrite parse_options_step by assumption.
+    cbn [get_u8 obind]. rewrite <- app_assoc.
+    rewrite get_bytes_app by (apply lenN_takeN_le; lia). cbn [obind].
+    destruct (IH (dropN 255 v) rest (opt_extend acc code (takeN 255 v)) fuel0) as [fuel' [Hf' Heq]].
+    + rewrite length_dropN. unfold lenN in Hl. lia.
+    + cbn [length] in Hfuel. rewrite <- app_assoc, app_length in Hfuel. lia.
+    + exists fuel'. split; [exact Hf'|]. rewrite Heq, opt_extend_twice, take_drop. reflexivity.
+Qed.
+
+Definition extend_all (os : list (N * list N)) (acc : list (N * list N)) :=
+  fold_left (fun a o => opt_extend a (fst o) (snd o)) os acc.
+
+Lemma parse_options_list os : forallb wf_option os = true ->
+  forall acc fuel, (length (flat_map enc_option os ++ [255%N]) < fuel)%nat ->
+  parse_options fuel (flat_map enc_option os ++ [255]) acc = Ok (extend_all os acc).
+Proof.
+  induction os as [|o os IH]; intros Hwf acc fuel Hfuel.
+  - cbn [flat_map app] in *. destruct fuel as [|f]; [cbn in Hfuel; lia|]. reflexivity.
+  - cbn [forallb] in Hwf. apply andb_true_iff in Hwf. destruct Hwf as [Ho Hos].
+    unfold wf_option in Ho. apply andb_true_iff in Ho. destruct Ho as [Ho _].
+    apply andb_true_iff in Ho. destruct Ho as [Hc0 Hc255].
+    cbn [flat_map] in *. rewrite <- app_assoc in *.
+    change (enc_option o) with (enc_chunks (S (length (snd o))) (fst o) (snd o)) in *.
+    destruct (parse_chunks (S (length (snd o))) (fst o) ltac:(lia) ltac:(lia) (snd o)
+                (flat_map enc_option os ++ [255]) acc fuel ltac:(lia) Hfuel) as [fuel' [Hf' Heq]].
+    rewrite Heq. rewrite IH by assumption. reflexivity.
+Qed.
+
+Lemma extend_fresh acc c v : (forall o, In o acc -> fst o <> c) -> opt_extend acc c v = acc ++ [(c, v)].
+Proof.
+  induction acc as [|[c' w] acc IH]; intro H; cbn [opt_extend app]; [reflexivity|].
+  destruct (c' =? c) eqn:E.
+  - exfalso. apply (H (c', w)); [left; reflexivity|]. cbn. lia.
+  - f_equal. apply IH. intros o Ho. apply H. right. exact Ho.
+Qed.
+
+Lemma extend_all_fresh os : keys_distinct os = true ->
+  forall acc, (forall o o', In o acc -> In o' os -> fst o <> fst o') -> extend_all os acc = acc ++ os.
+Proof.
+  induction os as [|[c v] os IH]; intros Hd acc Hdisj.
+  - cbn. now rewrite app_nil_r.
+  - cbn [keys_distinct] in Hd. apply andb_true_iff in Hd. destruct Hd as [Hnot Hd].
+    unfold extend_all. cbn [fold_left fst snd]. fold (extend_all os (opt_extend acc c v)).
+    rewrite extend_fresh.
+    + rewrite IH; [now rewrite <- app_assoc | exact Hd |].
+      intros o o' Ho Ho'. apply in_app_or in Ho. destruct Ho as [Ho|[<-|[]]].
+      * apply Hdisj; [exact Ho | right; exact Ho'].
+      * cbn [fst]. intro Heq. apply negb_true_iff in Hnot.
+        assert (existsb (fun o => fst o =? c) os = true); [|congruence].
+        apply existsb_exists. exists o'. split; [exact Ho'|]. lia.
+    + intros o Ho. apply (Hdisj o (c, v) Ho). left. reflexivity.
+Qed.
+
+Lemma parse_enc_options os fuel :
+  forallb wf_option os = true -> keys_distinct os = true ->
+  (length (enc_options os) < fuel)%nat ->
+  parse_options fuel (enc_options os) [] = Ok os.
+Proof.
+  intros Hwf Hd Hf. unfold enc_options in *. rewrite parse_options_list by assumption.
+  rewrite extend_all_fresh; [reflexivity | exact Hd |]. intros o o' [].
+Qed.
+
+(* ---- whole message ---------------------------------------------------- *)
+Lemma decode_encode m : wf_dhcp m = true -> decode (encode m) = Ok m.
+Proof.
+  destruct m as [op htype hlen hops xid secs flags ci yi si gi ch sn fl os].
+  unfold wf_dhcp. cbn [d_op d_htype d_hlen d_hops d_xid d_secs d_flags d_ciaddr d_yiaddr d_siaddr d_giaddr
+                       d_chaddr d_sname d_file d_options].
+  intro H.
+  repeat (apply andb_true_iff in H; let W := fresh "W" in destruct H as [H W]).
+  unfold byte_ok in *.
+  unfold encode, decode.
+  cbn [d_op d_htype d_hlen d_hops d_xid d_secs d_flags d_ciaddr d_yiaddr d_siaddr d_giaddr
+       d_chaddr d_sname d_file d_options app get_u8 obind].
+  rewrite get_be32_app by lia. cbn [obind].
+  rewrite get_be16_app by lia. cbn [obind].
+  rewrite get_be16_app by lia. cbn [obind].
+  rewrite !get_be32_app by lia. cbn [obind].
+  rewrite get_be32_app by lia. cbn [obind].
+  rewrite get_be32_app by lia. cbn [obind].
+  rewrite get_be32_app by lia. cbn [obind].
+  rewrite (get_bytes_app (fixed 16 ch)) by (apply lenN_fixed; lia). cbn [obind].
+  destruct (16 <? hlen) eqn:Eh; [lia|].
+  rewrite (get_bytes_app (fixed 64 sn)) by (apply lenN_fixed; lia). cbn [obind].
+  rewrite (get_bytes_app (fixed 128 fl)) by (apply lenN_fixed; lia). cbn [obind].
+  change magic with (be32 1669485411). rewrite get_be32_app by lia. cbn [obind].
+  rewrite N.eqb_refl. cbn [negb].
+  rewrite parse_enc_options by (try assumption; lia). cbn [obind].
+  f_equal. f_equal.
+  - rewrite fixed_short by lia. apply takeN_app_exact. lia.
+  - rewrite fixed_short by lia. unfold repeatN. apply null_terminated_pad. assumption.
+  - rewrite fixed_short by lia. unfold repeatN. apply null_terminated_pad. assumption.
+Qed.
